@@ -233,6 +233,29 @@ class Heap:
         h = h.set('hase', z3.Store(h.get('hase'), g, z3.K(INT, z3.K(INT, z3.BoolVal(False)))))
         return h, g
 
+    def wf_all(self):
+        """Well-formedness of EVERY allocated graph (graphs reached through dict values or 'graph' attributes included)."""
+        g = z3.Int(fresh_name('ag'))
+        out = []
+        guard = z3.And(0 <= g, g < self.get('next_gid'))
+        for ax in self.wf_graph(g):
+            if z3.is_quantifier(ax) and ax.is_forall():
+                n = ax.num_vars()
+                vs = [z3.Const(fresh_name('av'), ax.var_sort(i)) for i in range(n)]
+                body = z3.substitute_vars(ax.body(), *reversed(vs))
+                pats = []
+                for k in range(ax.num_patterns()):
+                    p = ax.pattern(k)
+                    terms = [z3.substitute_vars(p.arg(j), *reversed(vs)) for j in range(p.num_args())]
+                    pats.append(z3.MultiPattern(*terms) if len(terms) > 1 else terms[0])
+                if pats:
+                    out.append(z3.ForAll([g] + vs, z3.Implies(guard, body), patterns=pats))
+                else:
+                    out.append(z3.ForAll([g] + vs, z3.Implies(guard, body)))
+            else:
+                out.append(z3.ForAll([g], z3.Implies(guard, ax)))
+        return out
+
     def wf_refs(self):
         """Graph references stored in node attributes point at allocated graphs (no dangling / future ids)."""
         g = z3.Int(fresh_name('rg'))
